@@ -26,7 +26,8 @@ func checkC11(c *Ctx) {
 		"K4 inside cancel, close(done) executes on every path and dominates pendingMu.Lock()",
 		"K5 the only blocking operation performed while pendingMu may be held is the receive loop's delivery select, which also waits on the entry's done",
 		"K6 Close: CAS success dominates conn.Close, close(c.done), wg.Wait in that order; wg.Add dominates the go; the receive loop defers wg.Done and returns on any ReadFrom error",
-		"K7 id reuse: every path through cancel looks the entry up under the lock and deletes it when present")
+		"K7 id reuse: every path through cancel looks the entry up under the lock and deletes it when present",
+		"C12-K1 (shared) retry driver: only the internal per-try deadline error leads to another try; every other result of a try — the context's error, ErrNoResponse after Close, a write error — is returned at once")
 	r.NotDecided = append(r.NotDecided, "wall-clock bounds and goroutine scheduling", "a PacketConn whose Close does not unblock ReadFrom")
 	r.Expect("C11-clients", 2)
 	for _, short := range []string{"nclient4", "nclient6"} {
@@ -40,6 +41,7 @@ func checkC11(c *Ctx) {
 		c11Cancel(c, a)
 		c11Blocking(c, a)
 		c11Close(c, a)
+		c12Retry(c, a)
 	}
 }
 
@@ -563,6 +565,7 @@ func checkC12(c *Ctx) {
 		c12Retry(c, a)
 		c12Transmit(c, a)
 		c12Map(c, a)
+		loggerPurity(c, short, "C12-K3")
 	}
 }
 
@@ -669,6 +672,15 @@ func c12Retry(c *Ctx, a *clientAnchors) {
 				}
 			}
 			r.Check(back, "C12-K1", key("a deadline leads to the next try"), c.P.ipos(call), "call block reachable from the deadline edge", "after a deadline no further try is made")
+			// … and every path from the deadline edge to the next try doubles: the call block is not reachable
+			// from the deadline edge once the doubling block is removed
+			if back && dbl.Block() != dlE.To {
+				skip := reachFrom(dlE.To, nil, map[*ssa.BasicBlock]bool{dbl.Block(): true})[call.Block()]
+				r.Check(!skip, "C12-K1", key("every deadline doubles the timeout"), c.P.ipos(dbl), "no path from the deadline edge to the next try avoids the doubling",
+					"after a deadline the next try can start with the timeout not doubled (a cap or condition on the doubling): the offsets 0, T, 3T, 7T … and the give-up time T×(2^n−1) no longer hold")
+			} else if back {
+				r.OK("C12-K1", key("every deadline doubles the timeout"), c.P.ipos(dbl), "the doubling sits on the deadline edge itself", "")
+			}
 		}
 	}
 	// nil ⇒ return nil; other error ⇒ return it
@@ -975,4 +987,46 @@ func c12Map(c *Ctx, a *clientAnchors) {
 	}
 	// success return carries the response variable
 	_ = fmt.Sprint
+}
+
+// loggerPurity: the in-repo implementations of the clients' Logger.PrintMessage (called with the request
+// before every transmission) write nothing reachable from the message they print (E3 mutation summaries).
+func loggerPurity(c *Ctx, pkgShort, rule string) {
+	r := c.R
+	e := getE3(c)
+	n := 0
+	for _, f := range c.P.ModuleFuncs() {
+		if f.Parent() != nil || f.Signature.Recv() == nil || f.Name() != "PrintMessage" || f.Synthetic != "" {
+			continue
+		}
+		if !strings.HasSuffix(pkgPathOf(f), "/"+pkgShort) {
+			continue
+		}
+		ps := map[int]bool{}
+		for i, prm := range f.Params {
+			if i > 0 && hasPtr(prm.Type()) {
+				ps[i] = true
+			}
+		}
+		if len(ps) == 0 {
+			continue
+		}
+		n++
+		fnd := e.mutationFindings(f, ps)
+		bad := false
+		for _, x := range fnd {
+			if strings.HasPrefix(x.short, "UNDECIDED") {
+				r.Undecided(rule, shortName(f)+": "+x.short, x.pos, x.detail)
+				bad = true
+				continue
+			}
+			bad = true
+			r.Violation(rule, shortName(f)+": the logger writes the message it prints", x.pos, "writes: "+x.short+"\n    "+x.detail+"\n    the request is logged before every transmission: a logger that changes it makes retransmissions differ from the first datagram")
+		}
+		if !bad {
+			r.OK(rule, shortName(f)+": writes nothing reachable from the message", c.P.pos(f.Pos()), "E3: mutates ∩ inputs = ∅", "")
+		}
+	}
+	r.Count(rule+"-loggers-"+pkgShort, n)
+	r.Expect(rule+"-loggers-"+pkgShort, 2)
 }
